@@ -182,7 +182,7 @@ def gen_definition(rng, n_state=None, n_control=None, n_calib=None, n_sensors=No
     return Definition(dt, state, control, calib, model, sensors, transcend)
 
 
-def tame_definition(rng, n_state=None, n_control=1, n_sensors=1, singular=False, n_calib=0, max_readings=2):
+def tame_definition(rng, n_state=None, n_control=1, n_sensors=1, singular=False, n_calib=0, max_readings=2, direct=False):
     """bounded dynamics: each state is a contraction-weighted combination of states plus dt*control plus a bounded rational
     term, so that states and covariances stay bounded along any history (used for histories and data matrices)"""
     n = n_state or rng.choice([2, 3, 4])
@@ -219,6 +219,9 @@ def tame_definition(rng, n_state=None, n_control=1, n_sensors=1, singular=False,
         for r in rn:
             a, b = rng.choice(state), rng.choice(state)
             sensors[key][r] = sympy.sympify(rng.choice([1, 2]) * a + rng.choice([0, 1]) * b - rng.choice([0, 1]) / (1 + a ** 2))
+    if direct and n >= 2:
+        rn = fresh_names(rng, 2, set(names) | {r for rd in sensors.values() for r in rd})
+        sensors["direct9"] = {rn[0]: state[0], rn[1]: state[-1]}
     return Definition(dt, state, control, calib, model, sensors)
 
 
@@ -268,9 +271,22 @@ def unsort_readings(d: Definition):
     return d
 
 
+def paired_powers_definition(rng):
+    """expressions that differ only by an integer -1 versus -2 (inverse range / inverse square, x - v*dt / x - 2*v*dt):
+    structurally almost identical statements inside one generation"""
+    names = fresh_names(rng, 4)
+    r, v, x, u = (Symbol(n) for n in names)
+    dt = Symbol("dt")
+    model = {r: r + dt * v + 1 / (1 + r ** 2), v: v - dt * u, x: x - v * dt + 1 / (1 + r ** 2) ** 2}
+    sensors = {"range0": {"inv_r": 1 / (2 + r ** 2), "inv_r2": 1 / (2 + r ** 2) ** 2},
+               "lag1": {"a_1": x - v, "a_2": x - 2 * v}}
+    return Definition(dt, [r, v, x], [u], [], {k: sympy.sympify(e) for k, e in model.items()}, sensors)
+
+
 def gen_point(rng, d: Definition):
     return {
-        "dt": Fraction(rng.randint(1, 16), 32),
+        # "for all dt": includes dt = 0 (no time passes) now and then
+        "dt": Fraction(0) if rng.random() < 0.12 else Fraction(rng.randint(1, 16), 32),
         "state": {s.name: dyadic(rng) for s in d.state},
         "control": {s.name: dyadic(rng) for s in d.control},
         "cal": {s.name: dyadic(rng) for s in d.calibration},
@@ -312,6 +328,10 @@ def expr_json(e):
         return ["num", f"{e.p}/{e.q}"]
     if e.is_Float:
         return ["num", frac_str(Fraction(float(e)))]
+    if e is sympy.E:
+        return ["app", "exp", ["num", "1"]]
+    if e is sympy.pi:
+        return ["mul", ["num", "4"], ["app", "atan", ["num", "1"]]]
     if e.is_Add:
         args = [expr_json(a) for a in e.args]
         out = args[0]
